@@ -508,7 +508,7 @@ const FIT_PALETTES: &[&[i64]] = &[
     &[7],
     &[1, 2, 3],
 ];
-const W_PALETTE: &[i64] = &[100, 101, 102, 103, 105, 110, 150, 200, 0, -100, -101, 1000, 1019, 1021, 50, 51];
+const W_PALETTE: &[i64] = &[100, 101, 102, 103, 105, 110, 150, 200, 0, -100, -101, 1000, 1019, 1021, 50, 51, 98, 10, 9];
 
 struct IndGen {
     next_id: u64,
